@@ -37,6 +37,7 @@ import (
 type c15Case struct {
 	FanKind  string   `json:"fanKind"` // hwmon | file | cmd
 	PwmMap   bool     `json:"pwmMap"`  // configured pwmMap
+	ViaLoader bool    `json:"viaLoader,omitempty"` // the fan entry goes through a configuration file and fan2go's loader
 	MinMax   bool     `json:"minMax"`  // configured minPwm + maxPwm
 	HasRpm   bool     `json:"hasRpm"`
 	Levels   int      `json:"levels"`
@@ -44,6 +45,7 @@ type c15Case struct {
 }
 
 type c15World struct {
+	ctx     *Ctx
 	c       *c15Case
 	dir     string
 	id      string
@@ -131,7 +133,16 @@ func (w *c15World) start(ctx *Ctx) (obs c15Obs, ok bool) {
 		omu.Unlock()
 	}
 	d.Mu.Unlock()
-	fan, err := fans.NewFan(w.fanConfig())
+	fcfg := w.fanConfig()
+	if w.c.ViaLoader {
+		// the entry as a user's configuration file and fan2go's loader deliver it
+		loaded, lerr := fanConfigViaLoader(w.ctx, fcfg)
+		if lerr != nil {
+			panic("documented fan entry not loadable: " + lerr.Error())
+		}
+		fcfg = loaded
+	}
+	fan, err := fans.NewFan(fcfg)
 	if err != nil {
 		panic(err)
 	}
@@ -225,7 +236,7 @@ func runC15(ctx *Ctx, c *c15Case) {
 	dir := ctx.Path(uniqueId("c15"))
 	_ = os.MkdirAll(dir, 0755)
 	defer os.RemoveAll(dir)
-	w := &c15World{c: c, dir: dir, id: uniqueId("c15fan"), pwm: filepath.Join(dir, "pwm1"), en: filepath.Join(dir, "pwm1_enable"), rpm: filepath.Join(dir, "fan1_input"),
+	w := &c15World{ctx: ctx, c: c, dir: dir, id: uniqueId("c15fan"), pwm: filepath.Join(dir, "pwm1"), en: filepath.Join(dir, "pwm1_enable"), rpm: filepath.Join(dir, "fan1_input"),
 		dbPath: filepath.Join(dir, "fan2go.db")}
 	w.curve = newScriptCurve()
 	w.curve.Val = 140
@@ -328,7 +339,7 @@ func runC15(ctx *Ctx, c *c15Case) {
 }
 
 func genC15(r *rand.Rand, kind string) *c15Case {
-	c := &c15Case{FanKind: kind, PwmMap: r.Intn(3) == 0, MinMax: r.Intn(3) == 0, HasRpm: r.Intn(4) > 0, Levels: pick(r, 0, 4, 6)}
+	c := &c15Case{FanKind: kind, PwmMap: r.Intn(3) == 0, MinMax: r.Intn(3) == 0, HasRpm: r.Intn(4) > 0, Levels: pick(r, 0, 4, 6), ViaLoader: r.Intn(2) == 0}
 	if kind == "hwmon" {
 		c.HasRpm = true
 		if c.Levels == 0 && !c.PwmMap {
